@@ -35,7 +35,7 @@ Open Scope Z_scope.
 Theorem model_is_of_current_source :
   code_cfg = {| c_build_archives := true; c_reissue_archives := true; c_rejects_archived := true; c_set_once := true;
                 c_queries_stored := true; c_confirm_recomputes := true;
-                c_genesis_archives_live := Gen.C13.genesis_archives_live; c_redeploy_reissues := true |} /\
+                c_genesis_archives_live := true; c_redeploy_reissues := true |} /\
   Gen.C13.batch_queries = ["BatchRequestByNonce"; "LastPendingBatchForGasEstimation"; "LastPendingBatchRequestByAddr";
                            "OutgoingTxBatches"]%string /\
   Gen.C13.add_evidence_one_entry_per_validator = true /\
@@ -266,6 +266,14 @@ Theorem genesis_safe_for_all_histories_once_import_archives :
   Gen.C13.genesis_archives_live = true -> forall (Sig : Type) (ops : list (op Sig)), genesis_safe code_cfg ops.
 Proof. exact (fun H Sig ops => or_introl H). Qed.
 Print Assumptions genesis_safe_for_all_histories_once_import_archives.
+
+(** On the code as it is (fix 0ef010d7 merged: initBridgeDataFromGenesis archives intBatch.BytesToSign,
+    shape read by T) the premise [genesis_safe] of the theorems above holds for every history; this
+    is where a tree that stops archiving at import stops checking. *)
+Theorem every_history_is_genesis_safe :
+  forall (Sig : Type) (ops : list (op Sig)), genesis_safe code_cfg ops.
+Proof. exact (fun Sig ops => or_introl eq_refl). Qed.
+Print Assumptions every_history_is_genesis_safe.
 
 (** ... and is needed: with an InitGenesis that does not, the restarted chain serves (and
     ConfirmBatch verifies against) bytes to sign that are not in its archive, and the validator
